@@ -16,8 +16,20 @@ _next = [0]
 
 
 def _ctext(doc):
-    # default=: a document an API call mutated may hold non-JSON objects
-    return json.dumps(doc, sort_keys=True, ensure_ascii=True, allow_nan=True, default=lambda o: "<non-JSON %s>" % type(o).__name__)
+    """type-exact canonical text of a JSON document: a list that became a tuple, an int that
+    became a bool, or a non-JSON object all change it"""
+    def t(d):
+        if isinstance(d, dict):
+            return {"<dict>": sorted(([repr(k), t(val)] for k, val in d.items()), key=lambda kv: kv[0])} if type(d) is dict else \
+                {"<%s>" % type(d).__name__: repr(d)}
+        if type(d) is list:
+            return [t(i) for i in d]
+        if type(d) is tuple:
+            return {"<tuple>": [t(i) for i in d]}
+        if type(d) in (str, int, float, bool) or d is None:
+            return [type(d).__name__, repr(d)]
+        return {"<non-JSON %s>" % type(d).__name__: repr(d)[:80]}
+    return json.dumps(t(doc), ensure_ascii=True)
 
 
 class Sess(object):
@@ -99,6 +111,12 @@ def op_hist_step(args):
 
 
 # ---------------------------------------------------------------------- C12
+def _lookalike(code, tag):
+    from ops_const import code_replace
+    consts = tuple(_lookalike(k, tag) if isinstance(k, CodeType) else k for k in code.co_consts)
+    return code_replace(code, co_consts=consts, co_filename="%s.look%d" % (code.co_filename, tag), co_stacksize=code.co_stacksize + tag)
+
+
 def _first(s, key, value, v, eq=None):
     """the k-th result of a call must equal the first"""
     if key not in s.first:
@@ -221,6 +239,23 @@ def _c12_step(s, rule, arg, v):
             after = _ctext(obj.to_json_data())
             if after != (s.nj0_text if which == "n" else s.j0_text):
                 v.violate("shared_state", "to_json_data_after_mutation", "mutating a returned document (%s) changed a later to_json_data()" % desc)
+        elif rule == "decode_lookalike":
+            # a code object that compares equal to the session's (code equality ignores the file
+            # name and the stack size) but is not the same: results must not leak between them
+            look = _lookalike(s.code, (arg or {}).get("tag", 1))
+            dl = L.CodeData.from_code(look)
+            d = refs.ident_diff(look, dl.to_code(), nan_bits=True, limit=2)
+            if d:
+                v.violate("shared_state", "from_code_lookalike:" + d[0][1],
+                          "from_code of a look-alike code object (other file name / stack size) does not describe it: %s %s" % (d[0][0], d[0][2]))
+            again = L.CodeData.from_code(s.code)
+            if again != s.d:
+                v.violate("not_repeatable", "from_code_after_lookalike", "from_code(c) changed after decoding a look-alike of c")
+            d2 = refs.ident_diff(s.code, again.to_code(), nan_bits=True, limit=2)
+            if d2:
+                v.violate("shared_state", "from_code_after_lookalike:" + d2[0][1], "%s %s" % (d2[0][0], d2[0][2]))
+            v.features["lookalike_decodes"] += 1
+            v.features["repeated_call"] += 1
         elif rule == "from_json_then_mutate":
             # mutate the argument AFTER loading: the loaded value must not change
             jm = copy.deepcopy(doc)
